@@ -13,7 +13,7 @@
    contracts do exactly that by design; interior mutability inside a user-supplied module) is outside
    "chain state" and outside the model.  Staking and custom queries are not modelled at this level: for them
    only "storage unchanged" and "same answer twice / after a failed call" are checked, on the implementation. *)
-From Verif Require Import Base OMap Text Proto Bank Exec ExecFacts ExecFacts2 ExecIso ExecQuery ChkExec ChkX ChkQ.
+From Verif Require Import Base OMap Text Proto Bank Exec ExecFacts ExecFacts2 ExecIso ExecQuery ChkExec ChkX ChkIso ChkQ.
 
 (* ---------- a query is a function of the state and the block ---------- *)
 
@@ -143,6 +143,36 @@ Theorem C10_agree_sound ce batch steps : c10 ce batch steps = Agree ->
 Proof. exact (c10_agree_sound ce batch steps). Qed.
 Print Assumptions C10_agree_sound.
 
+(* ---------- the further oracle clauses 9-12 (effects completed earlier in the same transaction are seen) ----------
+   The check evaluates them after clauses 5-8 (ChkQ.oracle_qx); an Agree verdict implies they hold of the
+   implementation's observations: *)
+Theorem C10_agree_sound_x ce batch steps : c10 ce batch steps = Agree -> oracle_qx None steps 0 = None.
+Proof. exact (c10_agree_sound_x ce batch steps). Qed.
+Print Assumptions C10_agree_sound_x.
+
+(* C10_model_ok above covers clauses 5-8.  Of the further clauses, these two are proved of the model for ALL
+   inputs.  Clause 10 (the same walk for every program of the tree, found in the log by its node number),
+   clause 11 (a later node's raw / smart query on c sees what the last completed body of c left: parent body ->
+   its first sub-message, adjacent root messages of one execute_multi) and clause 12 (clause 7 for instantiate)
+   identify runs by node number / rely on the new address being a valid one, so they are claimed for the
+   harness's inputs (unique node numbers, bech32 addresses) and are NOT part of C10_model_ok; what they say of
+   the model is exactly body_queries_see_entry_state + subs_see_callers_writes + later_sibling_sees_earlier. *)
+
+(* clause 9: what the root body of a top-level call reads from its own storage is its window before the call
+   plus its own writes *)
+Theorem root_reads_seen e op s : root_reads_ok s op (top_trace (run_top e op s)) = true.
+Proof. exact (root_reads_model e op s). Qed.
+Print Assumptions root_reads_seen.
+
+(* the core of clause 10, read-your-writes, follows from run_actions: for EVERY script, every own store and
+   every knowledge [known] consistent with it, the walk accepts the model's log of the body — after AWrite k v a
+   get of k gives Some v, after ARemove k it gives None, whatever lies below the write cache *)
+Theorem read_your_writes e s node acts known own rest :
+  sorted bcmp own -> (forall k x, kget k known = Some x -> assoc bcmp k own = x) ->
+  ryw node known acts (fst (run_actions e s node own acts) ++ rest) = true.
+Proof. exact (ryw_model e s node acts known own rest). Qed.
+Print Assumptions read_your_writes.
+
 (* ---------- non-vacuity ---------- *)
 Local Open Scope N_scope.
 Definition ex_env : env := {| codes := [(1, Build_code 101 [99] [] true true true)]; blk := Build_blockinfo 1 2 [99];
@@ -233,3 +263,26 @@ Example funds_oracle_runs :
                     st_outcome := st_outcome (q_step x); st_state := st_state (q_step x); st_other := 0; st_raw_same := false |};
        q_tr1 := []; q_tr2 := []; q_same1 := true; q_same2 := true; q_ext1 := []; q_ext2 := [] |} = Some 7.
 Proof. vm_compute. auto. Qed.
+
+(* the further clauses on a forged log: contract b has [1]->[1] committed; its body overwrites and removes the key and
+   is told the OLD value by its own read (clauses 9 and 10); a sub-message's raw query on the parent is told the old
+   value (clause 11); read_your_writes' hypotheses are met by the empty knowledge *)
+Example further_clauses_run :
+  let body := Prog 1 [AWrite [1] [5]; ARemove [1]; AQ (QRead [1])] in
+  let hdr n c := RCall n EExec c (Some [97]) [] (blk ex_env) 101 None in
+  let mk op tr := {| q_step := {| st_blk := blk ex_env; st_op := op; st_trace := tr; st_outcome := Ok [([], None)]; st_state := ex_state;
+                                  st_other := 0; st_raw_same := false |};
+                     q_tr1 := []; q_tr2 := []; q_same1 := true; q_same2 := true; q_ext1 := []; q_ext2 := [] |} in
+  let prev := mk (TMint [97] []) [] in
+  let op1 := TExec [97] (MExec [98] (body (OResp [] [] None SNil)) []) in
+  let sub := Sub 1 [] RNever (MExec [99] (Prog 2 [AQ (QRaw [98] [1])] (OResp [] [] None SNil)) []) (Prog 3 [] OFail) (Prog 4 [] OFail) in
+  let op2 := TExec [97] (MExec [98] (Prog 1 [AWrite [1] [5]; ARemove [1]] (OResp [] [] None (SCons sub SNil))) []) in
+  p_c10x (Some prev) (mk op1 [hdr 1 [98]; RObs 1 (VBytes None)]) = None /\
+  p_c10x (Some prev) (mk op1 [hdr 1 [98]; RObs 1 (VBytes (Some [1]))]) = Some 9 /\
+  ryw_all (flat_op op1) [hdr 1 [98]; RObs 1 (VBytes (Some [1]))] = false /\
+  p_c10x (Some prev) (mk op2 [hdr 1 [98]; RCall 2 EExec [99] (Some [98]) [] (blk ex_env) 101 None; RObs 2 (VRaw (Some []))]) = None /\
+  p_c10x (Some prev) (mk op2 [hdr 1 [98]; RCall 2 EExec [99] (Some [98]) [] (blk ex_env) 101 None; RObs 2 (VRaw (Some [1]))]) = Some 11 /\
+  sorted bcmp (cstore_get ex_state [98]) /\ (forall k x, kget k [] = Some x -> assoc bcmp k (cstore_get ex_state [98]) = x).
+Proof.
+  cbn zeta. repeat (split; [vm_compute; reflexivity|]). split; [repeat constructor|]. intros k x H. discriminate.
+Qed.
